@@ -391,6 +391,44 @@ Proof.
   pose proof (find_none _ _ F n Hin) as N; simpl in N; destruct (attr_supported v n); [reflexivity | discriminate].
 Qed.
 
+(* the walk of _process_template_attribute: any attribute the version does not have makes the template fail (with the
+   version error, or with the multiplicity error of an earlier position); a version error names an attribute of the
+   template that the version does not have, namely the first one; success means every attribute is supported *)
+Lemma template_walk_rejects : forall v items seen n, In n (map ti_name items) -> attr_supported v n = false ->
+  template_walk v seen items <> TOk.
+Proof.
+  intros v items; induction items as [|[[m hi] nz] rest IH]; intros seen n Hin Hn; simpl in Hin; [contradiction|].
+  simpl. destruct (attr_supported v m) eqn:Sm; simpl; [|discriminate].
+  assert (Hrest : In n (map ti_name rest)).
+  { destruct Hin as [E|H]; [|assumption]. unfold ti_name in E; simpl in E; subst m; rewrite Hn in Sm; discriminate. }
+  destruct (attr_multivalued m).
+  - destruct (negb hi && existsb (String.eqb m) seen); [discriminate | apply (IH _ n Hrest Hn)].
+  - destruct (hi && nz); [discriminate|].
+    destruct (existsb (String.eqb m) seen); [discriminate | apply (IH _ n Hrest Hn)].
+Qed.
+
+Lemma template_walk_unsupported : forall v items seen m, template_walk v seen items = TUnsupported m ->
+  In m (map ti_name items) /\ attr_supported v m = false /\ template_gate v (map ti_name items) = Some m.
+Proof.
+  intros v items; induction items as [|[[n hi] nz] rest IH]; intros seen m H; simpl in H; [discriminate|].
+  unfold template_gate; simpl; unfold ti_name at 1 3; simpl.
+  destruct (attr_supported v n) eqn:Sn; simpl in *.
+  - assert (R : exists seen', template_walk v seen' rest = TUnsupported m).
+    { destruct (attr_multivalued n).
+      - destruct (negb hi && existsb (String.eqb n) seen); [discriminate | eexists; exact H].
+      - destruct (hi && nz); [discriminate|]. destruct (existsb (String.eqb n) seen); [discriminate | eexists; exact H]. }
+    destruct R as [seen' R]; destruct (IH _ _ R) as [A [B C]].
+    split; [right; assumption|split; [assumption | exact C]].
+  - inversion H; subst; split; [left; reflexivity|split; [assumption | reflexivity]].
+Qed.
+
+Lemma template_walk_ok : forall v items seen, template_walk v seen items = TOk ->
+  forall n, In n (map ti_name items) -> attr_supported v n = true.
+Proof.
+  intros v items seen H n Hin; destruct (attr_supported v n) eqn:S; [reflexivity|].
+  exfalso; exact (template_walk_rejects v items seen n Hin S H).
+Qed.
+
 Lemma reported_sound : forall v held cands n, In n (reported v held cands) ->
   In n cands /\ held n = true /\
   exists r, find_rule n = Some r /\ ver_leb (ar_version_added r) v = true /\
